@@ -9,7 +9,7 @@
    before looping (16 B each, whatever the input) and panics once the product wraps; the N-layer theorems are stated on that domain
    because nothing is claimed of the code beyond it (the model itself has no such limit: Neighbour.nN_exact etc.). *)
 From Coq Require Import ZArith String List Lia.
-From SID Require Import Base Str Ids Shift Neighbour NeighbourChk.
+From SID Require Import Base Str Ids Wire Shift Neighbour NeighbourChk DC08.
 Import ListNotations.
 Open Scope Z_scope.
 
@@ -161,6 +161,36 @@ Theorem C08_checker_N_error_cases : forall ids H V err r,
 Proof. exact check_N3_error_cases. Qed.
 Print Assumptions C08_checker_N_error_cases.
 
+(* ---- histories of calls ----
+   The property quantifies over every history of exported calls (earlier queries with other arguments, failed calls, the caller overwriting
+   the slices it passed or was handed, the caller parsing the same ID itself and mutating its own object).  The models are pure: the
+   expected answer of a call is a function of that call's own arguments.  The run-time entry "History" performs a whole history in one
+   case and judges every step exactly like a standalone call of the plain entry: *)
+(* a step that stands for a call gets the verdict of the plain entry on the call's own arguments, whatever the caller-side options
+   (mut: the caller overwrites the returned slice; over: what the caller writes into its own argument slice afterwards) *)
+Theorem C08_history_step_is_plain_call : forall fn id mut o,
+  existsb (String.eqb fn) ["Get6spatialIdsAdjacentToFaces"; "Get8spatialIdsAroundHorizontal"; "Get26spatialIdsAroundVoxel"]%string = true ->
+  step_verdict (VL [VS fn; VS id; VZ mut]) o = run_table plain_table no_oracle fn [VS id] o.
+Proof. exact step_is_plain_call_fixed. Qed.
+Print Assumptions C08_history_step_is_plain_call.
+Theorem C08_history_step_is_plain_call_N : forall ids H V mut over o, all_strings over = true ->
+  step_verdict (VL [VS "GetNspatialIdsAroundVoxcels"%string; ids; VZ H; VZ V; VZ mut; VL over]) o = d_N [ids; VZ H; VZ V] o.
+Proof. exact step_is_plain_call_N. Qed.
+Print Assumptions C08_history_step_is_plain_call_N.
+(* the verdict (expected answer included) of a step is the same after any prefix and before any suffix of other steps *)
+Theorem C08_history_independent : forall pre post s opre opost o, List.length pre = List.length opre ->
+  exists vpre, hist_verdicts pre opre = Some vpre /\
+    forall vpost, hist_verdicts post opost = Some vpost ->
+      hist_verdicts (pre ++ s :: post) (opre ++ o :: opost) = Some (vpre ++ step_verdict s o :: vpost).
+Proof. exact history_independent. Qed.
+Print Assumptions C08_history_independent.
+(* a history passes (corr and prop) exactly when every one of its steps passes as a standalone call *)
+Theorem C08_history_passes_iff_every_step_passes : forall steps ob vs, hist_verdicts steps ob = Some vs -> existsb is_bad vs = false ->
+  (v_corr (d_history [VL steps] (VL ob)) = true /\ v_prop (d_history [VL steps] (VL ob)) = true <->
+   forall v, In v vs -> v_corr v = true /\ v_prop v = true).
+Proof. exact history_passes_iff. Qed.
+Print Assumptions C08_history_passes_iff_every_step_passes.
+
 (* ---- non-vacuity ---- *)
 (* an edge voxel at zoom 2 (stencil narrower than the grid): 6 distinct wrapped neighbours *)
 Example C08_nonvacuous_six : valid (mk 2 0 3 4 (-16)) /\ 3 <= 2 ^ eh (mk 2 0 3 4 (-16)) /\
@@ -198,3 +228,18 @@ Proof. unfold capacity_ok, capacity. repeat split; try (vm_compute; congruence).
 Example C08_nonvacuous_spelling : parse_eid "+2/00/03/4/-016" = Some (mk 2 0 3 4 (-16)) /\
   n6_api "+2/00/03/4/-016" = ["2/3/3/4/-16"; "2/0/2/4/-16"; "2/0/3/4/-17"; "2/1/3/4/-16"; "2/0/0/4/-16"; "2/0/3/4/-15"]%string.
 Proof. split; vm_compute; reflexivity. Qed.
+
+(* a history: ring of an edge voxel, the caller's own parse-and-mutate, the ring of the same (x,y) one zoom finer, a failing list query,
+   the list query again with a valid list; the expected answers are those of the standalone calls (and "4/8/7/4/0" is not wrapped) *)
+Example C08_nonvacuous_history :
+  let steps := [VL [VS "Get8spatialIdsAroundHorizontal"; VS "3/7/7/3/0"; VZ 1];
+                VL [VS "OwnParseAndMutate"; VS "4/7/7/4/0"; VL [VL [VS "SetX"; VZ 0]; VL [VS "SetZoom"; VZ 3; VZ 3]]];
+                VL [VS "Get8spatialIdsAroundHorizontal"; VS "4/7/7/4/0"; VZ 0];
+                VL [VS "GetNspatialIdsAroundVoxcels"; VL [VS "3/7/7/3/0"; VS "x"]; VZ 1; VZ 0; VZ 0; VL [VS "3/0/0/3/0"; VS "3/1/0/3/0"]];
+                VL [VS "GetNspatialIdsAroundVoxcels"; VL [VS "3/0/0/3/0"; VS "3/1/0/3/0"]; VZ 1; VZ 0; VZ 1; VL []]]%string in
+  let obs := [of_LS (n8_api "3/7/7/3/0"); VNil; of_LS (n8_api "4/7/7/4/0"); VE VNil;
+              of_LS (nN_list ["3/0/0/3/0"; "3/1/0/3/0"] 1 0)]%string in
+  v_corr (d_history [VL steps] (VL obs)) = true /\ v_prop (d_history [VL steps] (VL obs)) = true /\
+  In "4/8/7/4/0"%string (n8_api "4/7/7/4/0") /\
+  v_prop (d_history [VL steps] (VL (map (fun o => match o with VE _ => of_LS [] | _ => o end) obs))) = false.
+Proof. vm_compute. repeat split; tauto. Qed.
